@@ -140,7 +140,7 @@ func (r *runningRoutine[K, V]) execute(
 				dur := r.retryBo.NextBackOff()
 				if dur != backoff.Stop {
 					r.deferRetry = time.AfterFunc(dur, func() {
-						verifhook.Point("keyed.timer.retry", r.key)
+						verifhook.Point("keyed.timer.retry", r.data)
 						verifhook.Point("keyed.lock", r.k)
 						r.k.mtx.Lock()
 						verifhook.Enter(r.k)
@@ -185,7 +185,7 @@ func (r *runningRoutine[K, V]) remove() {
 	}
 
 	timerCb := func() {
-		verifhook.Point("keyed.timer.remove", r.key)
+		verifhook.Point("keyed.timer.remove", r.data)
 		verifhook.Point("keyed.lock", r.k)
 		r.k.mtx.Lock()
 		verifhook.Enter(r.k)
